@@ -12,10 +12,10 @@ PROP = "C07"
 def run(ctx):
     tot_s = tot_t = 0
     bounds = []
-    quick_plan = [(n, 1, 0) for n in ["T", "T,T'", "T+fetch", "T;purge@B", "T,T';purge@B", "T;purge@A", "T-to-holder", "T(d:A>B),T(e:B>A)", "T(d),T(e);purge(e)@A", "T+fetch;purge@A", "T(d),T(e);purge(e)@A siblings"]]
+    quick_plan = [(n, 1, 0) for n in ["T", "T,T'", "T+fetch", "T;purge@B", "T,T';purge@B", "T;purge@A", "T-to-holder", "T(d:A>B),T(e:B>A)", "T(d),T(e);purge(e)@A", "T+fetch;purge@A", "T(d),T(e);purge(e)@A siblings", "T;store-refused@B"]]
     thorough_plan = (
         [(n, 2, 0) for n in ["T", "T,T'", "T+fetch", "T-to-holder", "T(d:A>B),T(e:B>A)"]]
-        + [(n, 2, 1) for n in ["T;purge@B", "T;purge@A"]]
+        + [(n, 2, 1) for n in ["T;purge@B", "T;purge@A", "T;store-refused@B"]]
         + [(n, 1, 1) for n in ["T,T';purge@B", "T(d),T(e);purge(e)@A", "T(d),T(e)", "T+fetch", "T,T'", "T+fetch;purge@A", "T(d),T(e);purge(e)@A siblings", "T(d),T(e) siblings"]]
         + [(n, 2, 0) for n in ["T,T';purge@B", "T(d),T(e);purge(e)@A", "T(d),T(e)"]]  # large: explored to the time budget
     )
